@@ -236,7 +236,7 @@ def hunts(quick, focus, timeout):
             out.append(cfg)
     if 'GP' in opts:
         # ABS (in-place candidates) in the function set, boxes with negative values, several trees, several iterations
-        n_gp = (120 if len(opts) == 1 else 24) if quick else (600 if len(opts) == 1 else 90)
+        n_gp = (160 if len(opts) == 1 else 96) if quick else (600 if len(opts) == 1 else 240)
         for i in range(n_gp):
             c = {'objective': OBJECTIVES[i % len(OBJECTIVES)], 'ret': ['pyfloat', 'npscalar'][i % 2], 'box': ['sym10', 'asym'][i % 2],
                  'agents': [5, 20, 7][i % 3], 'n_variables': [1, 2, 5][(i // 2) % 3], 'n_dimensions': 1, 'n_iterations': [3, 10][(i // 3) % 2],
